@@ -13,9 +13,10 @@ t=time.time()
 api,facts,dt=extract(a.config,a.repo)
 ctx=Ctx(); ctx.cache={}; ctx.repo=a.repo; ctx.facts=Facts(api,facts); ctx.effects=Effects(ctx.facts); ctx.config=a.config
 if not a.q: print('extract+load',time.time()-t)
-mod=importlib.import_module('rules.'+a.rule)
 rep=Report(a.rule.upper(),a.config)
-t=time.time(); mod.run(ctx,rep)
+t=time.time()
+for r in a.rule.split(','):
+    importlib.import_module('rules.'+r).run(ctx,rep)
 if not a.q:
     print('run',time.time()-t)
     print('obligations',rep.obligations,'discharged',rep.discharged,'nontrivial',len(rep.nontrivial))
